@@ -66,7 +66,7 @@ def points_for(rng, comp, npts):
     grids = [list(comp.training_data.x_grids[n]) for n in names]
     pts, kinds = [], []
     for k in range(npts):
-        mode = ['interior', 'node', 'mixed', 'near-inside-tol', 'near-outside-tol', 'outside'][k % 6]
+        mode = ['interior', 'node', 'mixed', 'near-inside-tol', 'near-outside-tol', 'outside', 'special'][k % 7]
         x = []
         for d, n in enumerate(names):
             lb, ub = map(float, doms[n])
@@ -80,6 +80,11 @@ def points_for(rng, comp, npts):
                 u = rng.choice(grids[d]) + rng.choice([-1, 1]) * rng.choice([3e-7, 1e-5]) * w
             elif mode == 'outside':
                 u = lb - 0.2 * w if rng.random() < 0.5 else ub + 0.2 * w
+            elif mode == 'special' and rng.random() < 0.7:
+                # values that are special for array code rather than for the mathematics: exactly 0.0 (padding value),
+                # a node value of ANOTHER dimension, a domain end point, 1.0
+                other = [g for dd in range(len(names)) if dd != d for g in grids[dd]]
+                u = rng.choice([0.0, 0.0, lb, ub, 1.0] + other)
             x.append(float(u))
         pts.append(x)
         kinds.append(mode)
@@ -101,7 +106,7 @@ def run_case(ctx, res, case, lines, post):
         return
     na = len(case['alpha_lim'])
     nd = case['nin']
-    names, pts, kinds = points_for(rng, comp, 12 if ctx.quick else 24)
+    names, pts, kinds = points_for(rng, comp, 14 if ctx.quick else 28)
     in_vars = [comp.inputs[n] for n in names]
     out_vars = [comp.outputs[o] for o in out_names]
 
